@@ -25,7 +25,8 @@ MNext ==
   \/ s.up /\ Act(EnvClose(s), <<"close">>)
   \/ Quiescent(s) /\ NothingDue(s) /\ s.tm # {} /\ Act([Begin(s) EXCEPT !.now = NextDeadline(s)], <<"time">>)
   \/ \E i \in OpIds : (\E u \in s.subs : u.id = OpNum(i) /\ u.fam = "connstate") /\ s.ops[i].st = "none" /\ Act(ConnUnsub(s, i), <<"connunsub", i>>)
-  \/ UseSubs /\ \E id \in {1, 2}, fam \in {"states", "logs"} : ~(\E u \in s.subs : u.id = id) /\ Act(UserSub(s, id, fam), <<"sub", id>>)
+  \/ UseSubs /\ \E id \in {1, 2}, fam \in {"states", "logs"}, once \in BOOLEAN :
+        ~(\E u \in s.subs : u.id = id) /\ (once => fam = "logs") /\ Act(UserSub(s, id, fam, once), <<"sub", id>>)
   \/ UseSubs /\ \E u \in s.subs : u.fam = "logs" /\ Act(UserUnsub(s, u.id, u.fam), <<"unsub", u.id>>)
   \/ UseSubs /\ ~s.va.on /\ Len(s.va.q) = 0 /\ \E md \in {"port", "noport", "block"}, au \in BOOLEAN : Act(VaSubscribe(s, md, au), <<"vasub">>)
   \/ UseSubs /\ s.va.on /\ Act(VaUnsub(s), <<"vaunsub">>)
@@ -48,7 +49,9 @@ OutcomeSound == \A j \in 1..Len(s.dn) : s.dn[j][2] \in {"ok", "ANY", "TimeoutAPI
 \* one callback per subscriber per message, nothing for anyone else
 OnePerMessage == [][(last'[1] = "chunk" /\ s.up) =>
    LET ms == last'[2]
-       expect == Cardinality({<<j, u>> \in (1..Len(ms)) \X s.subs : (ms[j].k = "state" /\ u.fam = "states") \/ (ms[j].k = "log" /\ u.fam = "logs")})
+       \* (a self-unsubscribing subscriber receives exactly the first message of its family in the chunk)
+       FirstLog == IF \E j \in 1..Len(ms) : ms[j].k = "log" THEN CHOOSE j \in 1..Len(ms) : ms[j].k = "log" /\ \A i \in 1..j - 1 : ms[i].k # "log" ELSE 0
+       expect == Cardinality({<<j, u>> \in (1..Len(ms)) \X s.subs : (ms[j].k = "state" /\ u.fam = "states") \/ (ms[j].k = "log" /\ u.fam = "logs" /\ (u.once => j = FirstLog))})
        got == Cardinality({j \in 1..Len(s'.cb) : s'.cb[j][2] \in {"SensorState", "log"}})
    IN got = expect]_mvars
 \* a completed image is the concatenation of that key's chunks since its previous completion
